@@ -9,6 +9,7 @@ pub mod c10;
 pub mod c11;
 pub mod c12;
 pub mod c13;
+pub mod c14;
 pub mod c15;
 pub mod c16;
 pub mod common;
@@ -38,6 +39,7 @@ pub fn all() -> Vec<Prop> {
         Prop { id: "C11", level: "exploration", run: c11::run, replay: c11::replay },
         Prop { id: "C12", level: "fault_enumeration", run: c12::run, replay: c12::replay },
         Prop { id: "C13", level: "exploration", run: c13::run, replay: c13::replay },
+        Prop { id: "C14", level: "exploration", run: c14::run, replay: c14::replay },
         Prop { id: "C15", level: "exploration", run: c15::run, replay: c15::replay },
         Prop { id: "C16", level: "fault_enumeration", run: c16::run, replay: c16::replay },
     ]
